@@ -206,7 +206,7 @@ func TestC11(t *testing.T) {
 
 // ---------------------------------------------------------------- C12
 
-var c12Kinds = []string{"add", "add", "add", "add", "add", "merge", "decmerge", "copy", "clear", "encdec"}
+var c12Kinds = []string{"add", "add", "add", "add", "add", "merge", "decmerge", "deczeros", "copy", "clear", "encdec"}
 
 func drawShape(t *rapid.T) (string, signProfile) {
 	shape := rapid.SampledFrom([]string{"all-positive", "all-negative", "all-zero", "zero+negative", "zero+positive", "single-value", "sub-minimum", "mixed", "mixed"}).Draw(t, "shape")
